@@ -12,6 +12,10 @@ class Unsupported(Exception):
     """construct outside the supported subset -> obligation undecided (exit 2), never a verdict"""
 
 
+class BudgetExhausted(Exception):
+    """wall-clock budget of one harness configuration used up -> the configuration is undecided (exit 2), never a verdict"""
+
+
 class Infeasible(Exception):
     """current path condition unsatisfiable"""
 
@@ -115,6 +119,38 @@ class Path:
         if res is not None:
             self._record(c, res)
         return res
+
+    def entailed(self, cond):
+        """does the path condition imply cond?  (solver query, cached per path-condition length; unknown counts as no)"""
+        c = z3.simplify(cond)
+        if z3.is_true(c):
+            return True
+        if z3.is_false(c):
+            return False
+        cache = self.__dict__.setdefault('entail_cache', {})
+        k = (c.get_id(), len(self.pc))
+        if k not in cache:
+            self.solver.push()
+            self.solver.add(z3.Not(c))
+            r = self.solver.check()
+            self.solver.pop()
+            cache[k] = (r == z3.unsat, c)
+        return cache[k][0]
+
+    def few_values(self, iv, k=16):
+        """has the integer term at most k feasible values on this path?  (enumeration by solver queries, no forking)"""
+        self.solver.push()
+        try:
+            for _ in range(k + 1):
+                if self.solver.check() != z3.sat:
+                    return self.solver.check() == z3.unsat
+                cv = self.solver.model().eval(iv, model_completion=True)
+                if not z3.is_int_value(cv):
+                    return False
+                self.solver.add(iv != cv)
+            return False
+        finally:
+            self.solver.pop()
 
     def branch_value(self, iv, limit=64):
         """fork one path per feasible value of the integer term `iv`; the chosen values are recorded in the
